@@ -104,6 +104,10 @@ class SymH:
         from . import vhelpers
         return vhelpers._vfloat(tok)
 
+    def enable_dtype_model(self):
+        """Integer-tagged arrays report their integer dtype; reductions honour dtype= (narrow accumulators wrap)."""
+        symnp.DTYPE_MODEL = True
+
     def frac(self, a, b=1):
         return Fraction(a, b)    # always a Fraction: int/int in harness code must never become a float
 
